@@ -62,7 +62,7 @@ func run(c *vlib.Ctx) {
 	c.Cases("sesscancel", c.N(4, 64), func(k *vlib.Case) { netCase(k, "sesscancel") })
 	c.Cases("longsess", c.N(8, 160), longSessCase)
 	c.Cases("bigreq", c.N(4, 48), bigReqCase)
-	c.Cases("burst", c.N(8, 200), burstCase)
+	c.Cases("burst", c.N(16, 200), burstCase)
 }
 
 // ---------------------------------------------------------------- script
